@@ -113,7 +113,7 @@ MANIFEST_ENTRY = {
     "text": "Proved in Lean for all inputs: util.xor laws (length, involution, commutativity, cancellation); SCRAM for ANY "
             "hash/HMAC: the server recovers ClientKey from the client's proof and accepts, a different proof yields a "
             "different key; the exact auth-message concatenation and its injectivity in authid/nonces/salt/iterations/"
-            "binding; on_welcome accepts iff the leniently base64-decoded alleged signature equals "
+            "binding for comma-free fields (auth_message_injective carries the CommaFree hypotheses: the format itself is ambiguous otherwise - authid a,r=x with nonce y reads like authid a with nonce x,r=y); on_welcome accepts iff the leniently base64-decoded alleged signature equals "
             "HMAC(HMAC(sp,'Server Key'),am), rejects every single-bit alteration and every other length; base64/hex round "
             "trips of the CPython decoders; TOTP = 6 digits of DT(HMAC-SHA1(k,c)) mod 10^6 and check_totp = window "
             "{c-1,c,c+1}; compute_wcs = base64(HMAC-SHA256), derive_key = base64(PBKDF2-HMAC-SHA256) with exact output "
